@@ -163,6 +163,35 @@ def gen_cases(rng, tier):
             ivl = 12 if rng.chance(2, 3) else rng.choice([1, 8, 13, 16, 33])
             add(alg, "direct", 1, rng.bytes(rng.choice([16, 24, 32])), rng.bytes(ivl), b"", msg, segs,
                 taglen=rng.choice([16, 12, 8]), inplace=0, family="rand")
+    # long segments: the by-4/8/16-block loops of the key-stream and GHASH kernels, segment ends at
+    # 64k / 256k / 1024k +-1, few segments so that single segments are long
+    nbig = 60 if tier == "quick" else 700
+    for j in range(nbig):
+        alg = ("chacha", "gcm", "chacha", "gcm", "gmac")[j % 5]
+        nseg = 1 + rng.below(4)
+        base = rng.choice([256, 512, 768, 1024, 2048, 3072, 4096]) if rng.chance(2, 3) else 64 * rng.below(66)
+        L = max(0, min(4200, base + rng.choice([-65, -17, -16, -15, -1, 0, 0, 1, 15, 16, 17, 63, 64, 65])))
+        pts = sorted(min(L, max(0, rng.choice([64, 128, 192, 256, 512, 1024]) * rng.below(5) + rng.choice([-1, 0, 0, 1, 7])))
+                     for _ in range(nseg - 1))
+        cuts = [0] + pts + [L]
+        segs = tuple(cuts[i + 1] - cuts[i] for i in range(len(cuts) - 1))
+        msg = rng.bytes(L)
+        aad = rng.bytes(rng.choice([0, 1, 12, 16, 20, 40, 63, 64, 65, 257]))
+        d = 1 + rng.below(2)
+        if alg == "chacha":
+            add(alg, rng.choice(CH_FORMS), d, rng.bytes(32), rng.bytes(12), aad, msg, segs, inplace=rng.below(2), family="big")
+        elif alg == "gcm":
+            add(alg, rng.choice(GCM_FORMS), d, rng.bytes(rng.choice([16, 24, 32])), rng.bytes(rng.choice([12, 12, 16, 8])),
+                aad, msg, segs, taglen=rng.choice([16, 12]), inplace=rng.below(2), family="big")
+        else:
+            add(alg, "direct", 1, rng.bytes(rng.choice([16, 24, 32])), rng.bytes(12), b"", msg, segs, taglen=16, family="big")
+    # no segment at all (empty message): num_sgl_io_segs = 0, init directly followed by finalize
+    for d in (1, 2):
+        for f in CH_FORMS:
+            add("chacha", f, d, rng.bytes(32), rng.bytes(12), rng.bytes(9), b"", (), family="noseg")
+        for f in GCM_FORMS:
+            add("gcm", f, d, rng.bytes(16), rng.bytes(12), rng.bytes(9), b"", (), family="noseg")
+    add("gmac", "direct", 1, rng.bytes(32), rng.bytes(12), b"", b"", (), family="noseg")
     # direct ChaCha finalize with shorter tags (tag_len parameter of the direct API)
     for tl in (1, 8, 12, 15):
         L = 70 + tl
